@@ -53,12 +53,12 @@ Print Assumptions C19_unsubscribe_exact.
 (* Non-vacuity: a concrete history meets the hypotheses and exercises failure removal. *)
 Example C19_nonvacuous :
   let h := [OSub [mkSub 1 None [0;1] [false;true]]; OSub [mkSub 2 (Some 7) [1] []];
-            OPub 7 [10;20]%Z; OPub 7 [11;21]%Z; OPub 7 [12;22]%Z; OUnsub 7] in
+            OPub 7 [Some 10; Some 20]%Z; OPub 7 [Some 11; Some 21]%Z; OPub 7 [Some 12; None]%Z; OUnsub 7] in
   wf_hist h /\
   exists l xs, run [] h = Some (l, xs) /\ l = [] /\
-    trace xs = [Deliver 1 [(0,10%Z);(1,20%Z)] true; Deliver 2 [(1,20%Z)] true;
-                Deliver 1 [(0,11%Z);(1,21%Z)] false; Deliver 2 [(1,21%Z)] true; Cleanup 1;
-                Deliver 2 [(1,22%Z)] true; Cleanup 2].
+    trace xs = [Deliver 1 [(0,Some 10%Z);(1,Some 20%Z)] true; Deliver 2 [(1,Some 20%Z)] true;
+                Deliver 1 [(0,Some 11%Z);(1,Some 21%Z)] false; Deliver 2 [(1,Some 21%Z)] true; Cleanup 1;
+                Deliver 2 [(1,None)] true; Cleanup 2].
 Proof.
   split.
   - unfold wf_hist. simpl. repeat constructor; simpl; intuition congruence.
